@@ -56,8 +56,7 @@ def strip_unused_co_import(path):
     """The unoptimised stage still imports go-co although nothing uses it any more
     (imports are cleaned by the optimiser): drop that import so the stage builds."""
     src = open(path).read()
-    code = "\n".join(l for l in src.splitlines() if not l.lstrip().startswith("//"))
-    body = re.sub(r'"[^"\n]*"', '""', code)
+    body = re.sub(r'//[^\n]*', '', re.sub(r'"[^"\n]*"', '""', src))   # string literals blanked, then comments (also trailing ones) dropped
     if re.search(r"\b(Yield|YieldFrom|Iter)\b", body.split(")", 1)[-1] if "import (" in body else body):
         return False
     new = re.sub(r'\n\s*(?:[.\w]+\s+)?"github.com/goghcrow/go-co"[^\n]*', "", src, count=1)
@@ -78,7 +77,7 @@ def opt_structure(b, progs):
                     trees[(stage, t["pkg"], t["func"])] = t["start"]
     rows, names, unknown, why = [], [], 0, {}
     for p in progs:
-        if p.get("body") is None or not structcheck.eligible(p["body"]):
+        if p.get("body") is None or not structcheck.eligible(p["body"], allow_range=False):
             continue
         ko, kt = ("out", p["pkg"], p["name"]), ("tmp", p["pkg"], p["name"])
         if ko not in trees or kt not in trees:
